@@ -73,6 +73,24 @@ func famInbox(g *sgen, i int) J {
 		w["maxFwdDepth"] = float64(1 + g.r.intn(4))
 	}
 	a := g.inboxActivity(ty, w)
+	if ty == "Follow" && g.r.chance(70) {
+		// most Follows are of this inbox's actor and are answered automatically (Accept or Reject, delivered through the
+		// real delivery path)
+		objs := []interface{}{g.ref(alice, "Person", g.r.chance(25))}
+		if g.r.chance(30) {
+			objs = append(objs, dave)
+		}
+		a["object"] = asList(objs)
+		cfg := jmap(w["fedCallbacks"])
+		cfg["onFollow"] = float64(1 + g.r.intn(2))
+		var keep []interface{}
+		for _, o := range jlist(cfg["other"]) {
+			if o != "Follow" {
+				keep = append(keep, o)
+			}
+		}
+		cfg["other"] = orEmpty(keep)
+	}
 	kind := "both"
 	if g.r.chance(25) {
 		kind = "federating"
@@ -555,8 +573,13 @@ func famAuthority(g *sgen, i int) J {
 	if _, ok := a["to"]; !ok && g.r.bool() {
 		a["to"] = alice
 	}
-	return J{"label": "authority-" + fmt.Sprint(a["type"]), "cfg": J{"kind": "both"}, "world": w,
-		"steps": []interface{}{step("postInbox", "POST", g.header(true), "/users/alice/inbox", a)}}
+	steps := []interface{}{step("postInbox", "POST", g.header(true), "/users/alice/inbox", a)}
+	if g.r.chance(20) {
+		// a second request on the same actor, from somebody else
+		b := J{"type": "Listen", "id": remote(fmt.Sprintf("/activities/second%d", g.r.intn(100))), "actor": []interface{}{remote("/users/zed"), carol}, "object": remote("/notes/8"), "to": alice}
+		steps = append(steps, step("postInbox", "POST", g.header(true), "/users/alice/inbox", b))
+	}
+	return J{"label": "authority-" + fmt.Sprint(a["type"]), "cfg": J{"kind": "both"}, "world": w, "steps": steps}
 }
 
 // C02: a random federation graph behind the addressing properties
@@ -589,9 +612,17 @@ func famGraph(g *sgen, i int) J {
 	}
 	pool := append(append([]string{}, actors...), cols...)
 	pool = append(pool, alice, dave, carol)
+	// one graph in eight is delivered without a depth limit (0 or negative: "infinite recursion"); its collections
+	// then only contain collections of a higher index, so that the expansion ends
+	unlimited := g.r.chance(12)
 	for k, id := range cols {
 		var items []interface{}
 		for j, n := 0, g.r.intn(5); j < n; j++ {
+			if unlimited {
+				dag := append(append([]string{}, actors...), cols[k+1:]...)
+				items = append(items, dag[g.r.intn(len(dag))])
+				continue
+			}
 			items = append(items, pool[g.r.intn(len(pool))])
 		}
 		if g.r.chance(15) {
@@ -615,6 +646,9 @@ func famGraph(g *sgen, i int) J {
 		rem[id] = J{"type": ty, "id": id, key: asList(items)}
 	}
 	w["maxDeliveryDepth"] = float64(1 + g.r.intn(4))
+	if unlimited {
+		w["maxDeliveryDepth"] = float64(-g.r.intn(2))
+	}
 	apool := append(append([]string{}, pool...), publicIRI, "as:Public", remote("/gone"), alice)
 	var v J
 	switch i % 3 {
@@ -660,6 +694,14 @@ func famGraph(g *sgen, i int) J {
 			delete(v, p)
 		}
 		v[g.r.pick([]string{"to", "cc", "bto"})] = asList(xs)
+	}
+	if g.r.chance(20) {
+		// two deliveries in a row through one actor: what the transport was handed the first time is still the
+		// transport's when the second one is prepared
+		first := J{"type": "Note", "content": "an earlier, private note", "to": actors[0]}
+		st0 := J{"entry": "send", "host": hostA, "path": "/users/alice/outbox", "value": first}
+		st := J{"entry": "send", "host": hostA, "path": "/users/alice/outbox", "value": v}
+		return J{"label": "graph-send2", "wantGraph": true, "unordered": true, "cfg": J{"kind": "both"}, "world": w, "steps": []interface{}{st0, st}}
 	}
 	if g.r.bool() {
 		st := J{"entry": "send", "host": hostA, "path": "/users/alice/outbox", "value": v}
